@@ -360,6 +360,26 @@ def items_for(N, K):
 SEQ_C = 3
 
 
+def _isolation_probes(K):
+    return [
+        dict(owner=[0, 1, 0], dirs=["B", "B", "B"], kind="loop", layers=K, ops=[["R", [0, 1, 2]], ["W", [2, 1, 0]], ["R", [2, 0, 1]]]),
+        dict(owner=[1, 0, 1], dirs=["B", "B", "B"], kind="native", layers=K, ops=[["W", [2, 0, 1]], ["R", [1, 0, 2]]]),
+    ]
+
+
+def _isolation_problems(sc):
+    """Run `sc` on a fresh composite, then a scenario with the same register names on other layers, then `sc` again."""
+    first = _det_probe(sc)
+    other = dict(sc, owner=[(o + 1) % sc["layers"] for o in sc["owner"]])
+    run_scenario(other)
+    second = _det_probe(sc)
+    if first != second:
+        return [("C25:depends-on-an-earlier-composite",
+                 f"scenario {sc['ops']} with owners {sc['owner']} behaves differently after another composite used the same register "
+                 f"names on other layers: first {first[0] or first[2][-2:]}, then {second[0] or second[2][-2:]}")]
+    return []
+
+
 def _det_probe(sc):
     trace = []
     res, calls = run_scenario(sc, trace)
@@ -370,7 +390,15 @@ def run(ctx):
     global SEQ_C
     N, K = (3, 3) if ctx.quick else (4, 4)
     SEQ_C = 3 if ctx.quick else 4
-    ctx.prove_deterministic(_det_probe, [
+    # a composite must not depend on composites that existed before it (same register names, other layers): every probe
+    # scenario is executed after a differently mapped one and must behave as when executed first
+    leaking = False
+    for sc in _isolation_probes(K):
+        for sig, what in _isolation_problems(sc):
+            ctx.violation(sig, what, {"isolation": sc})
+            leaking = True
+    # (when composites influence each other, repeated executions differ because of the code under test, not the harness)
+    ctx.prove_deterministic(_det_probe, [] if leaking else [
         dict(owner=[0, 1, 0], dirs=["B", "B", "B"], kind="loop", layers=K, ops=[["R", [0, 1, 2]], ["W", [2, 1, 0]]]),
         dict(owner=[1, 0, 1], dirs=["B", "R", "W"], kind="native", layers=K, ops=[["W", [2, 0]], ["R", [1, 0]]]),
         dict(owner=[0], dirs=["B"], kind="loop", layers=K, ops=[["w", [0]], ["r", [0]]]),
@@ -412,6 +440,7 @@ def run(ctx):
         samples=samples, exhaustive=True,
         explanation="all work items completed; every scenario of the stated space was executed on fresh real objects",
     )
+    ctx.coverage["isolation_probes"] = len(_isolation_probes(K))
     ctx.assumptions += [
         "a register occurs at most once within one batch (the property speaks of duplicates across batches)",
         "batches are passed as lists (engine.py:322, 456); one-shot iterators are not covered",
@@ -420,6 +449,11 @@ def run(ctx):
 
 
 def replay(data):
+    if "isolation" in data:
+        probs = _isolation_problems(data["isolation"])
+        for _, w in probs:
+            print(w)
+        return probs
     trace = []
     res, _ = run_scenario(data, trace)
     for line in trace:
